@@ -1060,4 +1060,50 @@ theorem plain_R13 (e : AnnExpr) : plainUnions e = true → R13_typingDedup look 
     exact litMatters_nodup h
   | _ => intro h; simp_all [plainUnions, R13_typingDedup]
 
+/-! ### 7. Checker-level state -/
+
+/-- the cache only ever holds, for a function object, the signature computed from that object's own
+module environment and header -/
+def CacheSound (st : CheckerSt) (run : List (FnId × NameEnv × DefArgs)) : Prop :=
+  ∀ id r, (id, r) ∈ st.known → ∀ x ∈ run, x.1 = id → r = fromRuntime x.2.1 x.2.2
+
+theorem lookup_mem {β : Type} (l : List (FnId × β)) (id : FnId) (r : β) (h : l.lookup id = some r) :
+    (id, r) ∈ l := by
+  induction l with
+  | nil => simp at h
+  | cons x l ih =>
+    obtain ⟨k, v⟩ := x
+    by_cases hk : id = k
+    · subst hk; simp at h; simp [h]
+    · have : (id == k) = false := by simpa using hk
+      simp only [List.lookup, this] at h
+      exact List.mem_cons_of_mem _ (ih h)
+
+theorem runSt_eq_alone (run : List (FnId × NameEnv × DefArgs))
+    (hc : ∀ x ∈ run, ∀ y ∈ run, x.1 = y.1 → x.2 = y.2) :
+    ∀ st, CacheSound st run → runSt st run = runAlone run := by
+  induction run with
+  | nil => intro st _; rfl
+  | cons x run ih =>
+    intro st hs
+    obtain ⟨fid, env, d⟩ := x
+    have hc' : ∀ x ∈ run, ∀ y ∈ run, x.1 = y.1 → x.2 = y.2 :=
+      fun a ha b hb => hc a (by simp [ha]) b (by simp [hb])
+    simp only [runSt, runAlone, List.map_cons, rtSigSt]
+    cases hl : st.known.lookup fid with
+    | some r =>
+      have hr : r = fromRuntime env d := hs fid r (lookup_mem _ _ _ hl) (fid, env, d) (by simp) rfl
+      simp only [hr, List.cons.injEq, true_and]
+      exact ih hc' st fun i r' hm y hy hi => hs i r' hm y (by simp [hy]) hi
+    | none =>
+      simp only [List.cons.injEq, true_and]
+      apply ih hc'
+      intro i r' hm y hy hi
+      simp only [List.mem_append, List.mem_singleton, Prod.mk.injEq] at hm
+      rcases hm with hm | ⟨h1, h2⟩
+      · exact hs i r' hm y (by simp [hy]) hi
+      · have := hc (fid, env, d) (by simp) y (by simp [hy]) (by rw [← h1]; exact hi.symm)
+        simp only at this
+        rw [h2, ← this]
+
 end Pya.C13
